@@ -2,6 +2,7 @@ INIT Init
 NEXT Next
 CONSTANT RangeMode = TRUE
 INVARIANT RoundTrip
+INVARIANT BoundedRule
 INVARIANT Truncated
 INVARIANT CurveTypeRule
 INVARIANT CurveLayoutRule
